@@ -36,7 +36,7 @@ class Pair:
                  max_subscription_duration=7200, shared_server=True, keep_ctx_states=False, consumer_init_mdib=True,
                  alternative_hostname=None, deferred_dispatch=False, instance_id=1, sequence_id=None,
                  periodic_reports_interval=None, transport='loopback', encodings=('gzip',), chunk_size=0,
-                 validate=True):
+                 validate=True, location=False):
         _load_repo()
         from sdc11073.consumer.consumerimpl import SdcConsumer, default_components_factory
         from sdc11073.definitions_sdc import SdcV1Definitions
@@ -99,6 +99,10 @@ class Pair:
             for role in getattr(product, '_ordered_role_providers', []):
                 if hasattr(role, '_stop_worker'):
                     role._stop_worker.set()  # noqa: SLF001
+        if location:
+            # a device that knows where it is: every LocationContextDescriptor has an associated state
+            from sdc11073.location import SdcLocation
+            self.provider.set_location(SdcLocation(fac='fac1', poc='poc1', bed='bed1'))
         self.consumer = None
         self.cmdib = None
         if with_consumer:
